@@ -78,6 +78,7 @@ type State struct {
 	ghost  map[string]Term
 	defers []deferEntry
 	dead   bool
+	top    Term // allocation frontier
 }
 
 func (s *State) clone() *State {
@@ -93,6 +94,7 @@ func (s *State) clone() *State {
 	}
 	n.defers = append([]deferEntry(nil), s.defers...)
 	n.dead = s.dead
+	n.top = s.top
 	return n
 }
 
@@ -277,6 +279,22 @@ func (u *Unit) mergeStates(sts []*State) *State {
 		pcs = append(pcs, s.pc)
 	}
 	res.pc = u.defs.Define("pcj", Or(pcs...))
+	// allocation frontier
+	{
+		acc := u.topOf(live[len(live)-1])
+		same := true
+		for i := len(live) - 2; i >= 0; i-- {
+			t := u.topOf(live[i])
+			if t.S != acc.S {
+				same = false
+				acc = Ite(live[i].pc, t, acc)
+			}
+		}
+		if !same {
+			acc = u.defs.Define("topj", acc)
+		}
+		res.top = acc
+	}
 	// heap generation
 	sameGen := true
 	for _, s := range live[1:] {
